@@ -42,6 +42,14 @@ type Gen struct {
 	Recent       [][]byte // recently delivered raw txs (for replay stream)
 	FailedRun    [][]byte // delivered txs that passed the RunTx prologue but failed inside Run (failure fee charged, nonce unchanged): C26 replays
 	NearVotes    bool
+	// directed generation (directed.go)
+	ExactPct    int                        // percent of slippage limits set to the exact current quote (±1 pip) instead of a slack value
+	OwnGasPct   int                        // percent of pool/order transactions whose fee is paid in one of the coins they handle
+	GasPriceMax uint32                     // when > 5: half of the transactions carry a gas price 2..GasPriceMax
+	Sent        map[types.Address][][]byte // accepted bytes of the light wallets (walletDance), in nonce order
+	wallet      *walletLife
+	walletsUsed int
+	owners      *danceState // ticker hand-overs made by the scripted sequences (txgen_extra.go ownerDance)
 }
 
 func (g *Gen) cs() *state.CheckState { return g.N.App.CurrentState() }
@@ -194,6 +202,9 @@ func (g *Gen) Build(t tx.TxType, data interface{}, sender types.Address, gasCoin
 	t0 := tx.Transaction{Nonce: nonce, ChainID: g.W.Chain, GasPrice: 1, GasCoin: gasCoin, Type: t, Data: bData, SignatureType: tx.SigTypeSingle}
 	if g.rint(10) == 0 {
 		t0.GasPrice = uint32(1 + g.rint(5))
+	}
+	if g.GasPriceMax > 5 && g.rint(2) == 0 {
+		t0.GasPrice = uint32(2 + g.rint(int(g.GasPriceMax)-1))
 	}
 	if g.rint(6) == 0 {
 		t0.Payload = make([]byte, g.rint(40))
@@ -352,11 +363,37 @@ func (g *Gen) OfType(t tx.TxType, height uint64) *GenTx {
 		if g.rint(10) == 0 {
 			to = g.pickCoin()
 		}
+		// coins that are close to their maximum supply: buy about as much as is left (below, at, above the remaining room)
+		var roomDeposit, roomBuy *big.Int
+		if tight := g.tightCoins(); len(tight) > 0 && g.rint(3) == 0 {
+			to = tight[g.rint(len(tight))]
+			if g.rint(4) != 0 {
+				from = 0
+			}
+		}
+		if to != from && !to.IsBaseCoin() && g.exact() {
+			if c := cs.Coins().GetCoin(to); c != nil && c.BaseOrHasReserve() && roomOf(c).Cmp(c.Volume()) < 0 {
+				frac := roomFractions[g.rint(len(roomFractions))]
+				roomBuy = new(big.Int).Div(new(big.Int).Mul(roomOf(c), big.NewInt(frac)), big.NewInt(100))
+				if from.IsBaseCoin() {
+					roomDeposit = g.depositForRoom(to, frac)
+				}
+			}
+		}
 		bal := cs.Accounts().GetBalance(s, from)
 		switch t {
 		case tx.TypeSellCoin:
+			if roomDeposit != nil && roomDeposit.Sign() == 1 {
+				for tries := 0; tries < 6 && cs.Accounts().GetBalance(s, from).Cmp(roomDeposit) <= 0; tries++ {
+					s = g.pickAddr()
+				}
+				return g.Build(t, tx.SellCoinData{CoinToSell: from, ValueToSell: roomDeposit, CoinToBuy: to, MinimumValueToBuy: big.NewInt(int64(g.rint(2)))}, s, g.gasCoinFor(s))
+			}
 			return g.Build(t, tx.SellCoinData{CoinToSell: from, ValueToSell: g.amount(new(big.Int).Div(bal, big.NewInt(4))), CoinToBuy: to, MinimumValueToBuy: g.minBuy()}, s, gas)
 		case tx.TypeBuyCoin:
+			if roomBuy != nil && roomBuy.Sign() == 1 {
+				return g.Build(t, tx.BuyCoinData{CoinToBuy: to, ValueToBuy: roomBuy, CoinToSell: from, MaximumValueToSell: new(big.Int).Set(bal)}, s, gas)
+			}
 			return g.Build(t, tx.BuyCoinData{CoinToBuy: to, ValueToBuy: g.amount(pip(int64(1 + g.rint(500)))), CoinToSell: from, MaximumValueToSell: g.maxSell(bal)}, s, gas)
 		default:
 			return g.Build(t, tx.SellAllCoinData{CoinToSell: from, CoinToBuy: to, MinimumValueToBuy: g.minBuy()}, s, from)
@@ -560,7 +597,18 @@ func (g *Gen) OfType(t tx.TxType, height uint64) *GenTx {
 				c0, c1 = c1, c0
 			}
 		}
-		return g.Build(t, tx.AddLiquidityDataV260{Coin0: c0, Coin1: c1, Volume0: g.amount(new(big.Int).Div(cs.Accounts().GetBalance(s, c0), big.NewInt(10))), MaximumVolume1: g.maxSell(cs.Accounts().GetBalance(s, c1))}, s, gas)
+		gas = g.gasAmong(s, gas, c0, c1)
+		v0 := g.amount(new(big.Int).Div(cs.Accounts().GetBalance(s, c0), big.NewInt(10)))
+		max1 := g.maxSell(cs.Accounts().GetBalance(s, c1))
+		if sw := cs.Swap().GetSwapper(c0, c1); sw.Exists() && v0.Sign() == 1 && g.exact() {
+			// a wallet without slippage tolerance: exactly what the pool asks for at the current reserves
+			if lp := cs.Coins().GetCoinBySymbol(tx.LiquidityCoinSymbol(sw.GetID()), 0); lp != nil {
+				if _, a1 := sw.CalculateAddLiquidity(v0, lp.Volume()); a1 != nil && a1.Sign() == 1 {
+					max1 = g.nearQuote(a1)
+				}
+			}
+		}
+		return g.Build(t, tx.AddLiquidityDataV260{Coin0: c0, Coin1: c1, Volume0: v0, MaximumVolume1: max1}, s, gas)
 	case tx.TypeRemoveLiquidity:
 		pairs := g.poolPairs()
 		c0, c1 := g.pickCoin(), g.pickCoin()
@@ -584,24 +632,103 @@ func (g *Gen) OfType(t tx.TxType, height uint64) *GenTx {
 				}
 			}
 		}
-		return g.Build(t, tx.RemoveLiquidityV240{Coin0: c0, Coin1: c1, Liquidity: g.amount(liq), MinimumVolume0: g.minBuy(), MinimumVolume1: g.minBuy()}, s, gas)
+		gas = g.gasAmong(s, gas, c0, c1)
+		lq := g.amount(liq)
+		min0, min1 := g.minBuy(), g.minBuy()
+		if sw := cs.Swap().GetSwapper(c0, c1); sw.Exists() && lq.Sign() == 1 && g.exact() {
+			// a wallet without slippage tolerance: exactly what the share is worth at the current reserves (two times out of
+			// three), or at the reserves the fee exchange will leave when the fee goes through this very pool
+			if f := g.feeOf(tx.RemoveLiquidityV240{}, gas); f.OK && g.rint(3) == 0 {
+				sw = g.stepSwapper(c0, c1, &f)
+			}
+			if lp := cs.Coins().GetCoinBySymbol(tx.LiquidityCoinSymbol(sw.GetID()), 0); lp != nil && lp.Volume().Cmp(lq) >= 0 {
+				a0, a1 := sw.Amounts(lq, lp.Volume())
+				if a0 != nil && a1 != nil {
+					min0, min1 = a0, a1
+					switch g.rint(6) {
+					case 0:
+						min0 = g.nearQuote(a0)
+					case 1:
+						min1 = g.nearQuote(a1)
+					}
+				}
+			}
+		}
+		return g.Build(t, tx.RemoveLiquidityV240{Coin0: c0, Coin1: c1, Liquidity: lq, MinimumVolume0: min0, MinimumVolume1: min1}, s, gas)
 	case tx.TypeSellSwapPool, tx.TypeBuySwapPool, tx.TypeSellAllSwapPool:
 		r := g.route(4)
 		// pick a sender that holds r[0]
 		for tries := 0; tries < 5 && cs.Accounts().GetBalance(s, r[0]).Sign() == 0; tries++ {
 			s = g.pickAddr()
 		}
-		gas = g.gasCoinFor(s)
+		gas = g.gasAmong(s, g.gasCoinFor(s), r...)
 		bal := cs.Accounts().GetBalance(s, r[0])
+		// zero-slippage wallets: the limit is the current quote of the route. Either the plain quote of the reserves as they
+		// are (what an estimate answers; the fee exchange may move a pool of the route afterwards) or the quote with the fee
+		// exchange applied first (what the node will compute).
+		exact := g.exact()
+		withFee := g.rint(2) == 0
 		switch t {
 		case tx.TypeSellSwapPool:
-			return g.Build(t, tx.SellSwapPoolDataV260{Coins: r, ValueToSell: g.amount(new(big.Int).Div(bal, big.NewInt(20))), MinimumValueToBuy: g.minBuy()}, s, gas)
+			data := tx.SellSwapPoolDataV260{Coins: r, ValueToSell: g.amount(new(big.Int).Div(bal, big.NewInt(20))), MinimumValueToBuy: g.minBuy()}
+			if exact {
+				var fee *Fee
+				if f := g.feeOf(data, gas); withFee && f.OK {
+					fee = &f
+				}
+				if q := g.quoteSell(r, data.ValueToSell, fee); q != nil {
+					data.MinimumValueToBuy = g.nearQuote(q)
+					return g.Build(t, data, s, gas, plainTx)
+				}
+			}
+			return g.Build(t, data, s, gas)
 		case tx.TypeBuySwapPool:
-			return g.Build(t, tx.BuySwapPoolDataV260{Coins: r, ValueToBuy: g.amount(pip(int64(1 + g.rint(300)))), MaximumValueToSell: g.maxSell(bal)}, s, gas)
+			data := tx.BuySwapPoolDataV260{Coins: r, ValueToBuy: g.amount(pip(int64(1 + g.rint(300)))), MaximumValueToSell: g.maxSell(bal)}
+			if exact {
+				var fee *Fee
+				if f := g.feeOf(data, gas); withFee && f.OK {
+					fee = &f
+				}
+				if q := g.quoteBuy(r, data.ValueToBuy, fee); q != nil {
+					data.MaximumValueToSell = g.nearQuote(q)
+					return g.Build(t, data, s, gas, plainTx)
+				}
+			}
+			return g.Build(t, data, s, gas)
 		default:
-			return g.Build(t, tx.SellAllSwapPoolDataV260{Coins: r, MinimumValueToBuy: g.minBuy()}, s, r[0])
+			// the GasCoin field of a sell-all is ignored by the node (the fee is taken in the coin sold): wallets leave it 0,
+			// copy the sold coin into it, or anything else
+			gasField := r[0]
+			switch g.rint(4) {
+			case 0:
+				gasField = 0
+			case 1:
+				gasField = g.pickCoin()
+			}
+			data := tx.SellAllSwapPoolDataV260{Coins: r, MinimumValueToBuy: g.minBuy()}
+			if exact {
+				if f := g.feeOf(data, r[0]); f.OK && bal.Cmp(f.InCoin) > 0 {
+					var fee *Fee
+					if withFee {
+						fee = &f
+					}
+					if q := g.quoteSell(r, new(big.Int).Sub(bal, f.InCoin), fee); q != nil {
+						data.MinimumValueToBuy = g.nearQuote(q)
+						return g.Build(t, data, s, gasField, plainTx)
+					}
+				}
+			}
+			return g.Build(t, data, s, gasField)
 		}
 	case tx.TypeAddLimitOrder:
+		if g.rint(100) < g.ExactPct/2 {
+			// dust at the pool price of a pool that fees are exchanged through
+			if xs := g.commissionPools(); len(xs) > 0 {
+				if d := g.dustOrder(xs[g.rint(len(xs))]); d != nil {
+					return d
+				}
+			}
+		}
 		pairs := g.poolPairs()
 		cSell, cBuy := g.pickCoin(), g.pickCoin()
 		if len(pairs) > 0 && g.rint(12) != 0 {
@@ -614,7 +741,7 @@ func (g *Gen) OfType(t tx.TxType, height uint64) *GenTx {
 		for tries := 0; tries < 5 && cs.Accounts().GetBalance(s, cSell).Sign() == 0; tries++ {
 			s = g.pickAddr()
 		}
-		gas = g.gasCoinFor(s)
+		gas = g.gasAmong(s, g.gasCoinFor(s), cSell, cBuy)
 		vs := g.amount(new(big.Int).Div(cs.Accounts().GetBalance(s, cSell), big.NewInt(30)))
 		// price near the pool price: wantBuy = vs * r(buy)/r(sell) * k, k in [1.0, 1.6] mostly valid
 		vb := big.NewInt(1)
@@ -622,8 +749,11 @@ func (g *Gen) OfType(t tx.TxType, height uint64) *GenTx {
 			rs, rb := sw.Reserves()
 			if rs.Sign() > 0 {
 				vb = new(big.Int).Div(new(big.Int).Mul(vs, rb), rs)
-				k := int64(90 + g.rint(80))
-				vb = vb.Div(vb.Mul(vb, big.NewInt(k)), big.NewInt(100))
+				k := int64(900 + 10*g.rint(80))
+				if g.rint(3) == 0 {
+					k = int64(1000 + g.rint(21)) // within 2 % of the pool price: ordinary trades end inside such orders
+				}
+				vb = vb.Div(vb.Mul(vb, big.NewInt(k)), big.NewInt(1000))
 			}
 		}
 		return g.Build(t, tx.AddLimitOrderData{CoinToSell: cSell, ValueToSell: vs, CoinToBuy: cBuy, ValueToBuy: vb}, s, gas)
@@ -632,7 +762,7 @@ func (g *Gen) OfType(t tx.TxType, height uint64) *GenTx {
 		id := uint32(1 + g.rint(int(next)+2))
 		if o := cs.Swap().GetOrder(id); o != nil && g.W.KeyOf[o.Owner] != nil && g.rint(6) != 0 {
 			s = o.Owner
-			gas = 0
+			gas = g.gasAmong(s, 0, o.Coin0, o.Coin1)
 		}
 		return g.Build(t, tx.RemoveLimitOrderData{ID: id}, s, gas)
 	case tx.TypeLockStake:
@@ -786,7 +916,38 @@ func (g *Gen) redeemCheck(height uint64) *GenTx {
 	if g.rint(25) == 0 {
 		nl = 17
 	}
-	ic := g.IssueCheck(issuer, coin, gasCoin, g.amount(new(big.Int).Div(cs.Accounts().GetBalance(issuer, coin), big.NewInt(10))), due, chain, nl)
+	value := g.amount(new(big.Int).Div(cs.Accounts().GetBalance(issuer, coin), big.NewInt(10)))
+	if g.exact() {
+		// a check over (nearly) everything the issuer owns of the coin: value = balance - k, k around the redemption fee
+		if g.rint(3) != 0 {
+			gasCoin = coin
+		}
+		bal := cs.Accounts().GetBalance(issuer, coin)
+		k := big.NewInt(0)
+		if f := g.feeOf(tx.RedeemCheckData{}, gasCoin); f.OK {
+			switch g.rint(6) {
+			case 0:
+				k = new(big.Int).Set(f.InCoin)
+			case 1:
+				k = new(big.Int).Sub(f.InCoin, big.NewInt(1))
+			case 2:
+				k = new(big.Int).Add(f.InCoin, big.NewInt(1))
+			case 3:
+				k = new(big.Int).Div(f.InCoin, big.NewInt(int64(2+g.rint(9))))
+			case 4:
+				k = big.NewInt(int64(g.rint(2)))
+			default:
+				k = new(big.Int).Mul(f.InCoin, big.NewInt(int64(2+g.rint(3))))
+			}
+		}
+		if v := new(big.Int).Sub(bal, k); v.Sign() == 1 {
+			value = v
+			if due < height {
+				due = height + uint64(g.rint(30))
+			}
+		}
+	}
+	ic := g.IssueCheck(issuer, coin, gasCoin, value, due, chain, nl)
 	g.W.Checks = append(g.W.Checks, ic)
 	txGas := gasCoin
 	if g.rint(25) == 0 {
